@@ -3,6 +3,8 @@
 package c11
 
 import (
+	"github.com/risor-io/risor/object"
+
 	"fmt"
 	"strings"
 	"sync"
@@ -94,9 +96,9 @@ func (c cfgSpec) buildOrders(thorough bool) (devs []orderDev, sites int) {
 }
 
 // buildWith constructs the configuration with the given orders.
-func (c cfgSpec) buildWith(d orderDev) (cfg *risorConfig, globals map[string]any, panicked string) {
+func (c cfgSpec) buildWith(d orderDev) (cfg *risorConfig, globals map[string]any, repl object.Object, panicked string) {
 	withRunner(&orderRunner{dev: d.Dev}, func() {
-		cfg, globals, _, panicked = c.build()
+		cfg, globals, repl, panicked = c.build()
 	})
 	return
 }
